@@ -502,6 +502,9 @@ OnDeliver(c, m, ev) ==
 OnOther(c, m, ev) ==
     IF ev.e \in {"metric", "log"} THEN V(m, FALSE, "C14:metric-and-log-sinks-differ")
     ELSE IF ev.e = "decoy" THEN V(m, FALSE, "C16:policy-level-callback-used-despite-call-level-override")
+    \* an attempt hook raising AbortRetryError is a request to abort, like the operation raising it
+    ELSE IF ev.e = "fault" /\ ev.kind = "abort" /\ ev.site \in {"astart", "aend"}
+         THEN [m EXCEPT !.abortReq = TRUE]
     ELSE m
 
 MonStep(c, m, ev) ==
